@@ -289,6 +289,7 @@ def copy(rc):
             rc.fail(f, f.node, f"{ci.name}.copy must copy each of its {objs}", construct=f"copy each {objs}")
     shared.copy_completeness_rule(rc, [(DAGF, "DAG"), (DAGF, "PDAG"), (BN, "BayesianNetwork"), (MN, "MarkovNetwork"), (JT, "JunctionTree"), (CG, "ClusterGraph"),
                                        (DBN, "DynamicBayesianNetwork"), ("pgmpy/models/FactorGraph.py", "FactorGraph")])
+    shared.rebuilt_from_edges_rule(rc, ("pgmpy/models/", "pgmpy/base/"), only=lambda f: f.name == "copy")
     bn = repo.func(BN, "BayesianNetwork.copy")
     if "latents" not in norm(bn.node, 100000):
         rc.fail(bn, bn.node, "BayesianNetwork.copy must carry over the latent set", construct="latents carried")
